@@ -188,3 +188,23 @@ for _pid, (_t, _x) in _ADD4.items():
     if _pid in CLAIMED:
         t0, x0, r0 = CLAIMED[_pid]
         CLAIMED[_pid] = (t0 + '; ' + _t, (x0 + ' ' + _x).strip(), r0)
+
+# round 13
+_ADD5 = {
+    'C01': ('conversion on concrete sparse cells and tensor-shaped values; right-angle and array-origin scenarios of the cell setters', ''),
+    'C02': ('NO-CANCELLATION structural lint on the image-search kernels; third-party API pass over the Cython modules', 'Also decided: the squared lengths the image search compares are sums of squares of the candidate vectors (no cancelling cross terms).'),
+    'C03': ('DTYPE-FLOW on the returns of nlist(); the System.neighborlist entry point evaluated with the real constructor', 'Also decided: nlist() returns an integer table on every path; System.neighborlist(model=) loads, System.neighborlist(cutoff=) builds for that system.'),
+    'C04': ('volume expression on concrete left-handed sets; cell-ownership (C01) and wrap (C05) rules', ''),
+    'C07': ('precedence rule of C09 and cache rule of C01 on the same sources; conversion table kept by the dump-file writer', 'Also decided: the conversion table the dump-file writer returns still marks box-relative columns as scaled.'),
+    'C08': ('', 'Also decided: loading a dump file with the conversion table its writer returned reads box-relative columns as box-relative.'),
+    'C10': ('conversion rule of C01 on tensor-shaped values; model compared before and after reading; defaults of the writers', 'Also decided: reading leaves the model object as given; the cell is written with a unit of length by default.'),
+    'C12': ('POINTWISE structural rule on the field methods', 'Also decided: a field value does not depend on the other positions of the same call.'),
+    'C13': ('LENGTH-DEFAULTS evaluation under two sizes of the working length unit', 'Also decided: length defaults of the periodic-array builder are lengths in working units.'),
+    'C16': ('index conversions on blocks with two leading axes; reduced index lists by evaluation', ''),
+    'C18': ('data-model round trip of the gamma surface by evaluation with interpreted unit functions', 'Also decided: GammaSurface.model written in other units reads back the same cell, vectors, energies and separations.'),
+    'C20': ('alias-aware purity of the integrators; recorded argument shapes of the central difference', 'Also decided: the integrators do not write into what the rate function returned; the energy function is only handed coordinates of the shape of coord.'),
+}
+for _pid, (_t, _x) in _ADD5.items():
+    if _pid in CLAIMED:
+        t0, x0, r0 = CLAIMED[_pid]
+        CLAIMED[_pid] = ((t0 + '; ' + _t) if _t else t0, (x0 + ' ' + _x).strip(), r0)
